@@ -218,7 +218,7 @@ def norm(x):
     a = x._a
     out = np.empty(a.shape[:-1], dtype=object)
     for idx in np.ndindex(out.shape):
-        out[idx] = C.rsqrt(a[idx + (0,)] * a[idx + (0,)] + a[idx + (1,)] * a[idx + (1,)] + a[idx + (2,)] * a[idx + (2,)])
+        out[idx] = C.rsqrt(a[idx + (0,)] * a[idx + (0,)] + a[idx + (1,)] * a[idx + (1,)] + a[idx + (2,)] * a[idx + (2,)], nonneg=True)
     return Variable(_arr=out, dims=x.dims, unit=x.unit, dtype=DType.float64, _rnd=V._rnd_add(x._rnd, DType.float64))
 
 
